@@ -2,7 +2,7 @@ import Fdo.Cbor.Typed
 /-
 A fragment of the typed codec for which decode ∘ encode = id is *proved* (TypedProofs.lean):
 integers, booleans, byte and text strings, fixed-size arrays, slices, array-encoded structs whose
-fields are all mandatory (no `omitempty`, no embedded COSE header), `cbor.Tag[T]`, `cbor.Bstr[T]`,
+fields are mandatory or (at most one per struct) an `omitempty` byte slice, without embedded COSE header, `cbor.Tag[T]`, `cbor.Bstr[T]`,
 `cbor.ByteWrap[T]`, `cbor.ByteWrap[[]byte]`, pointers to any of these and `cbor.RawBytes`, nested arbitrarily. `inFragment` decides membership,
 so the regenerated wire schemas can be classified by `decide`.
 Recursion is on a fuel argument because `Val` nests `List Val` (no structural recursion on it here).
@@ -27,7 +27,7 @@ def Schema.ptrDepth : Schema → Nat
   | _ => 0
 def Fields.ptrDepth : Fields → Nat
   | .nil => 0
-  | .cons s _ fs => max s.ptrDepth fs.ptrDepth
+  | .cons s o fs => max s.ptrDepth fs.ptrDepth + (if o then 1 else 0)   -- an omitted field costs a step too
   | .hdr fs => fs.ptrDepth
 end
 
@@ -41,7 +41,7 @@ def Schema.inFragment : Schema → Bool
   | .text => true
   | .fixed n => decide (n < maxLen)
   | .slice e => e.inFragment
-  | .struct fs => fs.inFragment && decide (fs.slots < maxLen)
+  | .struct fs => fs.inFragment && decide (fs.slots < maxLen ∧ fs.omittables ≤ 1)
   | .tagAny e => e.inFragment
   | .bstr e => e.inFragment
   | .wrap e => e.inFragment
@@ -51,7 +51,9 @@ def Schema.inFragment : Schema → Bool
   | _ => false
 def Fields.inFragment : Fields → Bool
   | .nil => true
-  | .cons s o fs => !o && s.inFragment && fs.inFragment
+  | .cons .bytes true fs => fs.inFragment        -- `omitempty` on a byte slice (the only use in the wire types)
+  | .cons s false fs => s.inFragment && fs.inFragment
+  | .cons _ true _ => false
   | .hdr _ => false
 end
 
